@@ -156,16 +156,22 @@ class BuildError(Exception):
     pass
 
 
-def _prune(d, keep, protect):
+def _prune(d, keep, protect, min_age_s=3 * 3600):
+    """keep the `keep` most recently used entries; never remove one that was used in the last hours (another check, e.g. a
+    background sweep on another checkout, may be running on it)"""
     try:
         ents = [os.path.join(d, e) for e in os.listdir(d)]
     except OSError:
         return
     ents = [e for e in ents if os.path.isdir(e) and not e.endswith(('.lock', '.build', '.tmp'))]
     ents.sort(key=lambda e: os.path.getmtime(e), reverse=True)
+    now = time.time()
     for e in ents[keep:]:
-        if os.path.basename(e) not in protect:
-            shutil.rmtree(e, ignore_errors=True)
+        try:
+            if os.path.basename(e) not in protect and now - os.path.getmtime(e) > min_age_s:
+                shutil.rmtree(e, ignore_errors=True)
+        except OSError:
+            pass
 
 
 def ensure_overlay(root=None, verbose=False):
@@ -208,8 +214,8 @@ def ensure_overlay(root=None, verbose=False):
             os.utime(p, (now, now))
         except OSError:
             pass
-    _prune(os.path.join(cache, 'tree'), 4, {tree_hash})
-    _prune(os.path.join(cache, 'ext'), 3, {ext_hash})
+    _prune(os.path.join(cache, 'tree'), 6, {tree_hash})
+    _prune(os.path.join(cache, 'ext'), 4, {ext_hash})
     return dict(overlay=tree_dir, home=os.path.join(ext_dir, 'home'),
                 ext_hash=ext_hash, tree_hash=tree_hash)
 
